@@ -230,7 +230,7 @@ class C08(Property):
                 for hist in itertools.product(keys, repeat=n):
                     if hist[-1] not in ("A", "B"):
                         continue
-                    for opts in ({}, {"useProductionNames": False}):
+                    for opts in ({}, {"useProductionNames": False}, {"useProductionNames": True}):
                         if opts and n > 2:
                             continue
                         out.append([{"part": "compiler", "cls": cls, "hist": list(hist), "opts": opts}])
